@@ -56,6 +56,8 @@ def run(ch: Checker) -> None:
     ch.rule('C01.9', 'the idle reaper never closes a connection that still holds undelivered relay data: is_inactive() requires an empty client buffer', 1)
     ch.rule('C01.10', 'HttpProxyPlugin.get_descriptors: while the upstream connection is open it is registered for READING on every path, whether or not output is pending for it '
                       '(read interest that waits for the write side to drain dead-locks a full-duplex tunnel under back-pressure)', 1)
+    ch.rule('C01.12', 'HttpProxyPlugin.read_from_descriptors: on a path where upstream data arrived and was handed on, the upstream is not released and the result is False -- '
+                      'reading stops only at EOF (recv() is None), on a receive error, or when a plugin asks for it; never because a parser thinks the response is complete', 1)
     ch.rule('C01.8', 'socket send is called on a connection only by TcpConnection.send, itself only by TcpConnection.flush', 2)
 
     idle_predicate_check(ch, 'C01.9')
@@ -353,9 +355,9 @@ def run(ch: Checker) -> None:
         for fn in ci.methods.values():
             for c in walk_no_nested(fn.node):
                 if isinstance(c, ast.Call) and attr_chain(c.func) in ('self.client.queue', 'self.work.queue'):
-                    g2 = cfg_of(fn, prog, exc_edges=False)
+                    g2 = cfg_of(fn, prog)      # with exception edges: a site inside an except handler is a queue site too
                     verdict = None
-                    for p in fpaths(g2):
+                    for p in fpaths(g2, limit=200000):
                         sym = Sym(p)
                         for i, st in p.stmts():
                             if any(x is c for x in walk_no_nested(st)):
@@ -371,7 +373,8 @@ def run(ch: Checker) -> None:
                                 else:
                                     verdict = 'BAD: proxy-made bytes %s queued to the client inside an established exchange' % t[:60]
                     if verdict is None:
-                        ch.skip('C01.7', fn, c, 'queue site not reached on any enumerated path')
+                        t0 = norm(c.args[0]) if c.args else ''
+                        ch.bad('C01.7', fn, c, 'a client queue site (%s) that no enumerated path reaches as a relay of received data: proxy-made bytes may be queued into an established exchange' % t0[:60])
                     elif verdict.startswith('BAD'):
                         ch.bad('C01.7', fn, c, verdict[5:])
                     else:
@@ -381,6 +384,32 @@ def run(ch: Checker) -> None:
     ok7 = info is not None and info['status'] == 200 and info['reason'] == b'Connection established' and not info['body'] and info['no_cl'] is True
     ch.check(bool(ok7), 'C01.7', None, 'PROXY_TUNNEL_ESTABLISHED_RESPONSE_PKT', '200 Connection established, no body, no Content-Length',
              'the tunnel acknowledgement is not a bare `200 Connection established` (%s): extra bytes would be injected ahead of tunnel data' % (info,), module_rel='proxy/http/responses.py')
+
+    # ---------------- C01.12 keep reading while data arrives
+    rfd = prog.own_method('HttpProxyPlugin', 'read_from_descriptors')
+    g12 = cfg_of(rfd, prog, exc_edges=False)
+    bad12 = None
+    n12 = 0
+    for p in fpaths(g12):
+        ch.paths += 1
+        if p.exit_kind != 'return':
+            continue
+        sym = Sym(p)
+        recvs = [i for i, st in p.stmts() if any(isinstance(c, ast.Call) and _cname(sym, c, i) == 'self.upstream.recv' for c in walk_no_nested(st))]
+        if not recvs:
+            continue
+        queued = [i for i, st in p.stmts() if i > recvs[0] and any(isinstance(c, ast.Call) and _cname(sym, c, i) == 'self.client.queue' for c in walk_no_nested(st))]
+        if not queued:
+            continue        # nothing received / dropped by a plugin
+        n12 += 1
+        rel = [i for i, st in p.stmts() if i > recvs[0] and any(isinstance(c, ast.Call) and _cname(sym, c, i) == 'self._close_and_release' for c in walk_no_nested(st))]
+        last = p.stmts()[-1]
+        rv = norm(sym.value(last[1].value, last[0])) if isinstance(last[1], ast.Return) and last[1].value is not None else 'None'
+        if rel or rv not in ('False',):
+            bad12 = ('after upstream data was received and queued for the client the upstream is released / teardown is signalled (returns %s): whatever the upstream sends next -- the final '
+                     'response after an interim 1xx, a close-delimited body that follows its header block in a later segment -- is never read' % rv, p.describe(24))
+    ch.check(bad12 is None and n12 > 0, 'C01.12', rfd, 'keep reading while data arrives', 'no release / teardown on the %d path(s) that relay data' % n12,
+             bad12[0] if bad12 else 'no relaying path found', witness=bad12[1] if bad12 else None)
 
     # ---------------- C01.10 read interest in the upstream is unconditional
     upstream_read_interest_check(ch, 'C01.10')
